@@ -11,8 +11,8 @@ import sys
 
 
 class F:
-    def __init__(self, val, w, kind='u', cond=None, name=None, rd=None):
-        self.val, self.w, self.kind, self.cond, self.name, self.rd = val, w, kind, cond, name, rd
+    def __init__(self, val, w, kind='u', cond=None, name=None, rd=None, rt=None):
+        self.val, self.w, self.kind, self.cond, self.name, self.rd, self.rt = val, w, kind, cond, name, rd, rt
 
 
 def R(w, cond=None):
@@ -79,6 +79,16 @@ BOXES = [
          fields=[F('b.balance.0.numer', 2, 'i'), R(2)], wire='b.balance.0.denom == 0x100', rd='b.balance.0.denom == 0x100'),
 ]
 
+VPCC_PACK = '((b.bit_depth << 4) | (b.chroma_subsampling << 1) | (b.video_full_range_flag as u8))'
+BOXES.append(
+    dict(name='vpcc', ty='VpccBox', code=0x76706343, iso='VP Codec ISO Media File Format Binding 2.2 VPCodecConfigurationBox', versioned=False,
+         fields=[F('b.profile', 1), F('b.level', 1),
+                 F(VPCC_PACK, 1, rd='b.bit_depth == {dec} >> 4 && b.chroma_subsampling == ({dec} << 4) >> 5 && b.video_full_range_flag == ({dec} & 0x01 == 1)',
+                   rt='let bd = b.bit_depth; let cs = b.chroma_subsampling; let fr = b.video_full_range_flag as u8; let pk = (bd << 4) | (cs << 1) | fr; '
+                      'assert(pk >> 4 == bd && (pk << 4) >> 5 == cs && (pk & 0x01 == 1) == (fr == 1)) by(bit_vector) requires bd < 16, cs < 8, fr <= 1, pk == (bd << 4) | (cs << 1) | fr;'),
+                 F('b.color_primaries', 1), F('b.transfer_characteristics', 1), F('b.matrix_coefficients', 1), F('b.codec_initialization_data_size', 2)],
+         wire='b.bit_depth < 16 && b.chroma_subsampling < 8', rd='true'))
+
 DEC = {1: None, 2: 'be16', 3: 'be24', 4: 'be32', 6: 'be48', 8: 'be64'}
 
 
@@ -102,7 +112,7 @@ def spec(bx):
     for k, f in enumerate(fs):
         if f.val is None:
             continue
-        dec = '%s(d, p + %s_off_%d(b))' % (DEC[f.w], n, k)
+        dec = ('d[p + %s_off_%d(b)]' % (n, k)) if f.w == 1 else '%s(d, p + %s_off_%d(b))' % (DEC[f.w], n, k)
         if f.kind == 'i':
             dec = '(%s as i%d)' % (dec, f.w * 8)
         c = ('(%s) ==> ' % f.cond) if f.cond else ''
@@ -121,6 +131,8 @@ def spec(bx):
             by = 'be_bytes(0, %d)' % f.w
         elif f.kind == 'i':
             by = 'be_bytes((%s as u%d) as nat, %d)' % (f.val, f.w * 8, f.w)
+        elif f.w == 1:
+            by = 'seq![%s]' % f.val
         else:
             by = 'be_bytes(%s as nat, %d)' % (f.val, f.w)
         if f.cond:
@@ -181,6 +193,8 @@ def contract(bx):
             by = 'be_bytes(0, %d)' % f.w
         elif f.kind == 'i':
             by = 'be_bytes((%s as u%d) as nat, %d)' % (f.val.replace('b.', 'self.'), f.w * 8, f.w)
+        elif f.w == 1:
+            by = 'seq![%s]' % f.val.replace('b.', 'self.')
         else:
             by = 'be_bytes(%s as nat, %d)' % (f.val.replace('b.', 'self.'), f.w)
         o.append('  proof [C04+C05.encode.step] after-write #%d' % (k + 3))
@@ -213,6 +227,8 @@ def roundtrip(bx):
             return 'be_bytes(0, %d)' % f.w
         if f.kind == 'i':
             return 'be_bytes((%s as u%d) as nat, %d)' % (f.val, f.w * 8, f.w)
+        if f.w == 1:
+            return 'seq![%s]' % f.val
         return 'be_bytes(%s as nat, %d)' % (f.val, f.w)
     # every prefix pre_k is a prefix of the whole
     for k in range(len(fs) - 1, -1, -1):
@@ -232,7 +248,9 @@ def roundtrip(bx):
         v = ('(%s as u%d) as nat' % (f.val, f.w * 8)) if f.kind == 'i' else ('%s as nat' % f.val)
         if f.kind == 'i':
             o.append('    let x%d = %s; assert(((x%d as u%d) as i%d) == x%d) by(bit_vector);' % (k, f.val, k, f.w * 8, f.w * 8, k))
-        call = 'lemma_rd%d(d, p, %s_pre_%d(b), %s, all);' % (f.w, n, k, v)
+        call = ('lemma_rd1s(d, p, %s_pre_%d(b), %s, all);' % (n, k, f.val)) if (f.w == 1 and f.kind != 'i') else 'lemma_rd%d(d, p, %s_pre_%d(b), %s, all);' % (f.w, n, k, v)
+        if getattr(f, 'rt', None):
+            o.append('    ' + f.rt)
         o.append('    ' + (('if %s { %s }' % (f.cond, call)) if f.cond else call))
     o.append('}')
     o.append('')
